@@ -139,6 +139,11 @@ def _explicit() -> dict[str, tuple[str, Callable[[Path], Any]]]:
         d.io.input_grammar.defaults = {"a": np.array([1.0]), "b": np.array([2.0]), "c": np.array([3.0]), "d": np.array([4.0])}
         return d
 
+    def affine(tmp):
+        # a user-defined discipline with integer coefficients: finite differences with a dyadic step are exact, and
+        # it counts the runs made *in the calling process* (a parallel approximation runs in other processes)
+        return H.AffineDisc("Aff", {"x": 2, "z": 1}, {"y": 2}, seed=11)
+
     def array_based(tmp):
         from gemseo.disciplines.array_based_function import ArrayBasedFunctionDiscipline
 
@@ -333,6 +338,7 @@ def _explicit() -> dict[str, tuple[str, Callable[[Path], Any]]]:
     rec: dict[str, tuple[str, Callable[[Path], Any]]] = {
         "AnalyticDiscipline": ("AnalyticDiscipline", analytic),
         "AnalyticDiscipline[4-symbols]": ("AnalyticDiscipline", analytic4),
+        "AffineDisc": ("AffineDisc", affine),
         "ArrayBasedFunctionDiscipline": ("ArrayBasedFunctionDiscipline", array_based),
         "AutoPyDiscipline": ("AutoPyDiscipline", auto_py),
         "Concatenater": ("Concatenater", concatenater),
